@@ -6,6 +6,7 @@
 //! trusted: R15 (deep slices): process_background_events: the match that acts on one background event (R5: the manager is a stub whose three callees record their arguments in a ghost log; `&self` written `&mut self`) and the empty / non-empty result; PersistenceNotifierGuard::optionally_notify: the match that combines the operation's and the background events' notification, verbatim; handle_post_event_actions: the statements of the ReleasePaymentComplete arm that advance the closed channel's update id, build the update and test whether start-up is finished (ChannelMonitorUpdate instantiated as the skeleton PostCloseUpdate, R5); BackgroundEvent and NotifyOption are extracted (PublicKey, ChannelId, OutPoint, ChannelMonitorUpdate skeletons)
 //! trusted: R15 (deep slices) of from_channel_manager_data, stale-manager branch: the loop body that queues the HTLCs force_shutdown handed back, the `if !found_htlc` block (the logger statements in front of the push are dropped) and the value the closed channel's update-id entry takes (`and_modify` closure body and `or_insert` argument; the HashMap entry chain is dropped), verbatim as functions
 //! trusted: R15 (captures): the PersistenceNotifierGuard constructor named in blocks_disconnected / transactions_confirmed / best_block_updated / transaction_unconfirmed of ChannelManager, compared by macro with the one constructor that does not run process_background_events
+//! trusted: release_update: R15 (deep slice, //@oneof: with or without an else branch): handle_post_event_actions, arm ReleasePaymentCompleteChannelMonitorUpdate, from the id increment to the end of the arm, verbatim as a method of a skeleton {start-up flag, pending background events, ghost log of updates applied through handle_post_close_monitor_update}; the two guard drops are removed (R8: the guards are not modelled)
 //! assume: nothing here decides the crash-point quantifier of C10 (every prefix of the sequence of durable writes): that is a whole-history statement outside function contracts; only the listed statements of the recovery path are decided
 use vstd::prelude::*;
 // which constructor of PersistenceNotifierGuard a method uses: only this one does not run process_background_events
@@ -157,29 +158,6 @@ pub struct PostCloseUpdate { pub update_id: u64, pub channel_id: Option<ChannelI
 pub struct AtomicFlag { pub v: bool }
 pub enum Ordering { Acquire, Release, Relaxed }
 impl AtomicFlag { #[verifier::external_body] pub fn load(&self, o: Ordering) -> (r: bool) ensures r == self.v { unimplemented!() } }
-pub struct StartUp { pub background_events_processed_since_startup: AtomicFlag }
-impl StartUp {
-//@extract lightning/src/ln/channelmanager.rs :: impl ChannelManager :: fn handle_post_event_actions
-//@slice R15
-    *update_id = update_id.saturating_add(1); let update = $u:seq; let during_startup = $d:seq; if during_startup {
-//@with
-    fn release_payment_complete_update(&self, update_id: &mut u64, channel_id: ChannelId, htlc_id: SentHTLCId) -> (PostCloseUpdate, bool) { *update_id = update_id.saturating_add(1); let update = $u; let during_startup = $d; (update, during_startup) }
-//@rw R5
-    let update = ChannelMonitorUpdate {
-//@with
-    let update = PostCloseUpdate {
-//@ret r
-//@ensures P C10 the-update-that-releases-a-completed-payment-takes-the-closed-channels-next-id-names-that-channel-and-htlc-and-is-queued-not-applied-while-start-up-is-unfinished
-    *final(update_id) == (if *old(update_id) == u64::MAX { u64::MAX } else { (*old(update_id) + 1) as u64 }),
-    r.0.update_id == *final(update_id), r.0.channel_id == Some(channel_id),
-    r.0.updates@ =~= seq![ChannelMonitorUpdateStep::ReleasePaymentComplete { htlc: htlc_id }],
-    r.1 == !self.background_events_processed_since_startup.v,
-//@mutant release_update_reuses_the_last_id
-    let update = ChannelMonitorUpdate { update_id: *update_id,
-//@with
-    let update = ChannelMonitorUpdate { update_id: *update_id - 1,
-//@end
-}
 //@extract lightning/src/ln/channelmanager.rs :: impl PersistenceNotifierGuard :: fn optionally_notify
 //@slice R15
     let notify = persist_check(); match (notify, force_notify) { $arms:any }
@@ -195,6 +173,111 @@ impl StartUp {
 //@with
     (_, NotifyOption::DoPersist) => NotifyOption::SkipPersistHandleEvents,
 //@end
+}
+pub mod release_update {
+use vstd::prelude::*;
+#[derive(Clone, Copy)] pub struct PublicKey { pub id: u64 }
+#[derive(Clone, Copy)] pub struct ChannelId { pub id: u64 }
+pub struct SentHTLCId { pub id: u64 }
+pub enum ChannelMonitorUpdateStep { ReleasePaymentComplete { htlc: SentHTLCId }, Other }
+pub struct PostCloseUpdate { pub update_id: u64, pub channel_id: Option<ChannelId>, pub updates: Vec<ChannelMonitorUpdateStep> }
+pub struct AtomicFlag { pub v: bool }
+pub enum Ordering { Acquire, Release, Relaxed }
+impl AtomicFlag { #[verifier::external_body] pub fn load(&self, o: Ordering) -> (r: bool) ensures r == self.v { unimplemented!() } }
+#[derive(Clone, Copy)] pub struct OutPoint { pub id: u64 }
+pub struct PostCloseUpdateSpec { pub update_id: u64, pub channel_id: Option<ChannelId>, pub htlc: SentHTLCId }
+pub open spec fn same_update(u: PostCloseUpdate, s: PostCloseUpdateSpec) -> bool {
+    u.update_id == s.update_id && u.channel_id == s.channel_id && u.updates@ =~= seq![ChannelMonitorUpdateStep::ReleasePaymentComplete { htlc: s.htlc }]
+}
+pub enum BackgroundEvent { MonitorUpdateRegeneratedOnStartup { counterparty_node_id: PublicKey, funding_txo: OutPoint, channel_id: ChannelId, update: PostCloseUpdate }, Other }
+pub open spec fn regenerated_for(e: BackgroundEvent, cp: PublicKey, txo: OutPoint, chan: ChannelId, s: PostCloseUpdateSpec) -> bool {
+    e matches BackgroundEvent::MonitorUpdateRegeneratedOnStartup { counterparty_node_id, funding_txo, channel_id, update }
+        && counterparty_node_id == cp && funding_txo == txo && channel_id == chan && same_update(update, s)
+}
+pub struct BackgroundEvents { pub v: Vec<BackgroundEvent> }
+impl BackgroundEvents { #[verifier::external_body] pub fn push(&mut self, e: BackgroundEvent) ensures final(self).v@ == old(self).v@.push(e) { unimplemented!() } }
+pub struct InFlight {} pub struct Blocked {} pub struct Actions {}
+pub struct PeerStateStub { pub in_flight_monitor_updates: InFlight, pub monitor_update_blocked_actions: Blocked }
+pub struct StartUp { pub background_events_processed_since_startup: AtomicFlag, pub pending_background_events: BackgroundEvents, pub applied: Ghost<Seq<PostCloseUpdate>> }
+impl StartUp {
+    // applies the update to the closed channel's monitor (recorded)
+    #[verifier::external_body] pub fn handle_post_close_monitor_update(&mut self, in_flight: &mut InFlight, blocked: &mut Blocked, funding_txo: OutPoint, update: PostCloseUpdate, counterparty_node_id: PublicKey, channel_id: ChannelId) -> (r: Option<Actions>)
+        ensures final(self).applied@ == old(self).applied@.push(update), final(self).pending_background_events == old(self).pending_background_events,
+            final(self).background_events_processed_since_startup == old(self).background_events_processed_since_startup { unimplemented!() }
+    #[verifier::external_body] pub fn handle_monitor_update_completion_actions(&mut self, actions: Actions)
+        ensures final(self).applied == old(self).applied, final(self).pending_background_events == old(self).pending_background_events,
+            final(self).background_events_processed_since_startup == old(self).background_events_processed_since_startup { unimplemented!() }
+//@extract lightning/src/ln/channelmanager.rs :: impl ChannelManager :: fn handle_post_event_actions
+//@oneof release_update
+//@slice R15
+    *update_id = update_id.saturating_add(1); let update = $u:seq; let during_startup = $d:seq; if $c:cond { $then:any } else { $else:any } },
+//@with
+    fn release_payment_complete_update(&mut self, update_id: &mut u64, channel_id: ChannelId, htlc_id: SentHTLCId, counterparty_node_id: PublicKey, channel_funding_outpoint: OutPoint, peer_state: &mut PeerStateStub) -> bool {
+        *update_id = update_id.saturating_add(1); let update = $u; let during_startup = $d; if $c { $then } else { $else } during_startup }
+//@rw R5
+    let update = ChannelMonitorUpdate {
+//@with
+    let update = PostCloseUpdate {
+//@rw R5 ?
+    self.pending_background_events.lock().unwrap().push(event);
+//@with
+    self.pending_background_events.push(event);
+//@rw R8 ?
+    mem::drop(peer_state_lock); mem::drop(per_peer_state);
+//@with
+//@ret r
+//@ensures P C10 the-update-that-releases-a-completed-payment-takes-the-closed-channels-next-id-names-that-channel-and-htlc-and-is-queued-not-applied-while-start-up-is-unfinished
+    *final(update_id) == (if *old(update_id) == u64::MAX { u64::MAX } else { (*old(update_id) + 1) as u64 }),
+    r == !old(self).background_events_processed_since_startup.v,
+    ({ let upd = PostCloseUpdateSpec { update_id: *final(update_id), channel_id: Some(channel_id), htlc: htlc_id };
+       &&& r ==> final(self).pending_background_events.v@.len() == old(self).pending_background_events.v@.len() + 1
+                 && final(self).pending_background_events.v@.drop_last() =~= old(self).pending_background_events.v@
+                 && regenerated_for(final(self).pending_background_events.v@.last(), counterparty_node_id, channel_funding_outpoint, channel_id, upd)
+                 && final(self).applied@ == old(self).applied@
+       &&& !r ==> final(self).pending_background_events.v@ == old(self).pending_background_events.v@
+                 && final(self).applied@.len() == old(self).applied@.len() + 1 && final(self).applied@.drop_last() =~= old(self).applied@
+                 && same_update(final(self).applied@.last(), upd) }),
+//@mutant release_update_reuses_the_last_id
+    let update = ChannelMonitorUpdate { update_id: *update_id,
+//@with
+    let update = ChannelMonitorUpdate { update_id: *update_id - 1,
+//@mutant release_update_applied_at_once_during_start_up
+    if during_startup {
+//@with
+    if false && during_startup {
+//@end
+//@extract lightning/src/ln/channelmanager.rs :: impl ChannelManager :: fn handle_post_event_actions
+//@oneof release_update
+//@slice R15
+    *update_id = update_id.saturating_add(1); let update = $u:seq; let during_startup = $d:seq; if $c:cond { $then:any } },
+//@with
+    fn release_payment_complete_update_without_else(&mut self, update_id: &mut u64, channel_id: ChannelId, htlc_id: SentHTLCId, counterparty_node_id: PublicKey, channel_funding_outpoint: OutPoint, peer_state: &mut PeerStateStub) -> bool {
+        *update_id = update_id.saturating_add(1); let update = $u; let during_startup = $d; if $c { $then } during_startup }
+//@rw R5
+    let update = ChannelMonitorUpdate {
+//@with
+    let update = PostCloseUpdate {
+//@rw R5 ?
+    self.pending_background_events.lock().unwrap().push(event);
+//@with
+    self.pending_background_events.push(event);
+//@rw R8 ?
+    mem::drop(peer_state_lock); mem::drop(per_peer_state);
+//@with
+//@ret r
+//@ensures P C10 the-update-that-releases-a-completed-payment-takes-the-closed-channels-next-id-names-that-channel-and-htlc-and-is-queued-not-applied-while-start-up-is-unfinished
+    *final(update_id) == (if *old(update_id) == u64::MAX { u64::MAX } else { (*old(update_id) + 1) as u64 }),
+    r == !old(self).background_events_processed_since_startup.v,
+    ({ let upd = PostCloseUpdateSpec { update_id: *final(update_id), channel_id: Some(channel_id), htlc: htlc_id };
+       &&& r ==> final(self).pending_background_events.v@.len() == old(self).pending_background_events.v@.len() + 1
+                 && final(self).pending_background_events.v@.drop_last() =~= old(self).pending_background_events.v@
+                 && regenerated_for(final(self).pending_background_events.v@.last(), counterparty_node_id, channel_funding_outpoint, channel_id, upd)
+                 && final(self).applied@ == old(self).applied@
+       &&& !r ==> final(self).pending_background_events.v@ == old(self).pending_background_events.v@
+                 && final(self).applied@.len() == old(self).applied@.len() + 1 && final(self).applied@.drop_last() =~= old(self).applied@
+                 && same_update(final(self).applied@.last(), upd) }),
+//@end
+}
 }
 // ---- the stale manager's channel is closed: what it hands back is failed, what the monitor no longer has is failed, the id counter never goes back ----
 pub mod stale_close {
